@@ -13,6 +13,7 @@ Check protocol (DESIGN §3.4):  run_check.py <Cxx> --tier quick|thorough
 from __future__ import annotations
 
 import argparse
+import contextlib
 import importlib
 import json
 import os
@@ -84,7 +85,8 @@ def main():
     if driver_ok:
         try:
             ctx.driver = C.Driver()
-            mod.correspondence(ctx)
+            with contextlib.redirect_stdout(sys.stderr):   # the package prints warnings on stdout
+                mod.correspondence(ctx)
         except C.DriverError as e:
             broken.append(("correspondence", f"driver error: {e}"))
         except Exception as e:
@@ -100,7 +102,8 @@ def main():
     # 5 oracle on the real code
     failures = []
     try:
-        failures = mod.oracle(ctx, deep=bool(broken))
+        with contextlib.redirect_stdout(sys.stderr):
+            failures = mod.oracle(ctx, deep=bool(broken))
     except Exception as e:
         broken.append(("oracle", f"oracle exception {type(e).__name__}: {e}\n" + traceback.format_exc()[-1200:]))
 
